@@ -347,3 +347,241 @@ Proof.
   apply N.eqb_neq in E. destruct H as [H|H]; [contradiction|].
   replace (gas_cap <? g) with false by (symmetry; apply N.ltb_ge; exact H). reflexivity.
 Qed.
+
+(* ------------------------------------------------------------------ tracing predicts the block *)
+
+Section TraceProofs.
+  Context {St T R : Type}.
+  Variable apply : St -> T -> option (St * R).
+  Variable admitted : St -> T -> bool.
+  Variable pre_fx : St -> T -> St.
+  Variable post_fx : St -> T -> R -> St.
+  Variable core_fx : St -> T -> St.
+  (* "equal up to what the prediction clause excludes": the fee bookkeeping of the block (sender balance, fee
+     collector, supply), which a trace does not reproduce *)
+  Variable eqv : St -> St -> Prop.
+  Hypothesis eqv_trans : forall a b c, eqv a b -> eqv b c -> eqv a c.
+  Hypothesis pre_eqv : forall s t, eqv (pre_fx s t) s.
+  Hypothesis post_eqv : forall s t r, eqv (post_fx s t r) s.
+  (* the transactions read neither the block context nor the sender's balance: on states equal up to the fee
+     bookkeeping the state transition refuses both or executes both with the same result *)
+  Hypothesis apply_eqv : forall a b t, eqv a b ->
+    match apply a t, apply b t with
+    | Some (a', x), Some (b', y) => x = y /\ eqv a' b'
+    | None, None => True
+    | _, _ => False
+    end.
+
+  Definition pred_ok (s : St) (t : T) (o : @bout R) : Prop :=
+    match o with
+    | BkExec _ => True
+    | BkCore => False
+    | BkAnte => forall st, eqv s st -> apply st t = None
+    end.
+
+  (* every predecessor was executed by the block (EVM failures included), or refused by the ante handler for a
+     reason the state transition refuses it for as well (nonce, creation / calls disabled, fee cap below base fee) *)
+  Fixpoint preds_ok (s : St) (pre : list T) : Prop :=
+    match pre with
+    | [] => True
+    | t :: r => pred_ok s t (snd (block_step apply admitted pre_fx post_fx core_fx s t)) /\
+                preds_ok (fst (block_step apply admitted pre_fx post_fx core_fx s t)) r
+    end.
+
+  Lemma block_run_cons : forall s t r,
+    block_run apply admitted pre_fx post_fx core_fx s (t :: r) =
+    (fst (block_run apply admitted pre_fx post_fx core_fx (fst (block_step apply admitted pre_fx post_fx core_fx s t)) r),
+     snd (block_step apply admitted pre_fx post_fx core_fx s t) ::
+     snd (block_run apply admitted pre_fx post_fx core_fx (fst (block_step apply admitted pre_fx post_fx core_fx s t)) r)).
+  Proof.
+    intros s t r. cbn [block_run]. destruct (block_step apply admitted pre_fx post_fx core_fx s t) as [s1 o]. cbn [fst snd].
+    destruct (block_run apply admitted pre_fx post_fx core_fx s1 r) as [s2 os]. reflexivity.
+  Qed.
+
+  Lemma exec_outcome : forall s st t r, eqv s st ->
+    snd (block_step apply admitted pre_fx post_fx core_fx s t) = BkExec r ->
+    exists st', apply st t = Some (st', r) /\ eqv (fst (block_step apply admitted pre_fx post_fx core_fx s t)) st'.
+  Proof.
+    intros s st t r He Ho. unfold block_step in *. destruct (admitted s t); [|discriminate Ho].
+    assert (He' : eqv (pre_fx s t) st) by (eapply eqv_trans; [apply pre_eqv|exact He]).
+    pose proof (apply_eqv (pre_fx s t) st t He') as Ha.
+    destruct (apply (pre_fx s t) t) as [[s' x]|]; [|discriminate Ho].
+    cbn [snd fst] in *. assert (x = r) by congruence. subst x.
+    destruct (apply st t) as [[st' y]|]; [|contradiction]. destruct Ha as [Hy Hs]. subst y.
+    exists st'. split; [reflexivity|]. eapply eqv_trans; [apply post_eqv|exact Hs].
+  Qed.
+
+  Lemma replay_tracks_block : forall pre s st, eqv s st -> preds_ok s pre ->
+    eqv (fst (block_run apply admitted pre_fx post_fx core_fx s pre)) (replay apply st pre).
+  Proof.
+    induction pre as [|u pre IH]; intros s st He Hp; [exact He|].
+    rewrite block_run_cons. cbn [fst replay]. cbn [preds_ok] in Hp. destruct Hp as [Hu Hr].
+    destruct (snd (block_step apply admitted pre_fx post_fx core_fx s u)) as [| |x] eqn:Eo; cbn [pred_ok] in Hu.
+    - assert (Es : fst (block_step apply admitted pre_fx post_fx core_fx s u) = s).
+      { unfold block_step in *. destruct (admitted s u); [|reflexivity].
+        destruct (apply (pre_fx s u) u) as [[? ?]|]; discriminate Eo. }
+      rewrite Es in *. rewrite (Hu st He). apply IH; assumption.
+    - contradiction.
+    - destruct (exec_outcome s st u x He Eo) as [st' [Ha He']]. rewrite Ha. apply IH; assumption.
+  Qed.
+
+  (* TraceTx of transaction number |pre| of ANY block, given its real predecessors, answers what the block did:
+     same result r (return data, logs, VM error, gas used are all part of r) *)
+  Lemma trace_predicts_block : forall pre t post s st r, eqv s st -> preds_ok s pre ->
+    nth_error (snd (block_run apply admitted pre_fx post_fx core_fx s (pre ++ t :: post))) (length pre) = Some (BkExec r) ->
+    trace_tx apply st pre t = Some r.
+  Proof.
+    induction pre as [|u pre IH]; intros t post s st r He Hp Hn.
+    - cbn [app length] in Hn. rewrite block_run_cons in Hn. cbn [snd nth_error] in Hn.
+      assert (Ho : snd (block_step apply admitted pre_fx post_fx core_fx s t) = BkExec r) by congruence.
+      destruct (exec_outcome s st t r He Ho) as [st' [Ha _]].
+      unfold trace_tx. cbn [replay]. rewrite Ha. reflexivity.
+    - cbn [app length] in Hn. rewrite block_run_cons in Hn. cbn [snd nth_error] in Hn.
+      cbn [preds_ok] in Hp. destruct Hp as [Hu Hr].
+      unfold trace_tx. cbn [replay].
+      destruct (snd (block_step apply admitted pre_fx post_fx core_fx s u)) as [| |x] eqn:Eo; cbn [pred_ok] in Hu.
+      + assert (Es : fst (block_step apply admitted pre_fx post_fx core_fx s u) = s).
+        { unfold block_step in *. destruct (admitted s u); [|reflexivity].
+          destruct (apply (pre_fx s u) u) as [[? ?]|]; discriminate Eo. }
+        rewrite Es in *. rewrite (Hu st He). exact (IH t post s st r He Hr Hn).
+      + contradiction.
+      + destruct (exec_outcome s st u x He Eo) as [st' [Ha He']]. rewrite Ha.
+        exact (IH t post _ st' r He' Hr Hn).
+  Qed.
+
+  (* TraceBlock answers, for transaction number i, what TraceTx with the first i transactions as predecessors answers *)
+  Lemma trace_block_nth : forall txs s i t, nth_error txs i = Some t ->
+    nth_error (trace_block apply s txs) i = Some (trace_tx apply s (firstn i txs) t).
+  Proof.
+    induction txs as [|u txs IH]; intros s i t Hn; [destruct i; discriminate Hn|].
+    destruct i as [|i]; cbn [nth_error firstn] in *.
+    - assert (u = t) by congruence. subst u. unfold trace_tx. cbn [trace_block replay].
+      destruct (apply s t) as [[s' x]|]; reflexivity.
+    - unfold trace_tx. cbn [trace_block replay].
+      destruct (apply s u) as [[s' x]|]; cbn [nth_error]; rewrite (IH _ i t Hn); reflexivity.
+  Qed.
+
+  (* what a complete replay looks like: told what the block did with every predecessor, and keeping the effects of
+     the ones the state transition refused (nonce consumed, fee charged), the trace answers what the block did --
+     for ANY block, no condition on the predecessors *)
+  Hypothesis core_eqv : forall a b t, eqv a b -> eqv (core_fx a t) (core_fx b t).
+
+  Lemma trace_with_outcomes_predicts_block : forall pre t post s st r, eqv s st ->
+    nth_error (snd (block_run apply admitted pre_fx post_fx core_fx s (pre ++ t :: post))) (length pre) = Some (BkExec r) ->
+    trace_tx_with_outcomes apply core_fx st
+      (combine pre (firstn (length pre) (snd (block_run apply admitted pre_fx post_fx core_fx s (pre ++ t :: post))))) t = Some r.
+  Proof.
+    induction pre as [|u pre IH]; intros t post s st r He Hn.
+    - cbn [app length] in Hn. rewrite block_run_cons in Hn. cbn [snd nth_error] in Hn.
+      assert (Ho : snd (block_step apply admitted pre_fx post_fx core_fx s t) = BkExec r) by congruence.
+      destruct (exec_outcome s st t r He Ho) as [st' [Ha _]].
+      unfold trace_tx_with_outcomes. cbn [length firstn combine replay_with_outcomes]. rewrite Ha. reflexivity.
+    - cbn [app length] in *. rewrite block_run_cons in *. cbn [snd nth_error firstn combine] in *.
+      unfold trace_tx_with_outcomes. cbn [replay_with_outcomes].
+      destruct (snd (block_step apply admitted pre_fx post_fx core_fx s u)) as [| |x] eqn:Eo.
+      + assert (Es : fst (block_step apply admitted pre_fx post_fx core_fx s u) = s).
+        { unfold block_step in *. destruct (admitted s u); [|reflexivity].
+          destruct (apply (pre_fx s u) u) as [[? ?]|]; discriminate Eo. }
+        rewrite Es in *. exact (IH t post s st r He Hn).
+      + assert (Es : fst (block_step apply admitted pre_fx post_fx core_fx s u) = core_fx s u).
+        { unfold block_step in *. destruct (admitted s u); [|discriminate Eo].
+          destruct (apply (pre_fx s u) u) as [[? ?]|]; [discriminate Eo|reflexivity]. }
+        rewrite Es in *. exact (IH t post _ _ r (core_eqv _ _ u He) Hn).
+      + destruct (exec_outcome s st u x He Eo) as [st' [Ha He']]. rewrite Ha.
+        exact (IH t post _ st' r He' Hn).
+  Qed.
+End TraceProofs.
+
+(* the full statement: no condition on what the block did with the predecessors *)
+Definition trace_predicts_block_full : Prop :=
+  forall (St T R : Type) (apply : St -> T -> option (St * R)) (admitted : St -> T -> bool)
+         (pre_fx : St -> T -> St) (post_fx : St -> T -> R -> St) (core_fx : St -> T -> St) (eqv : St -> St -> Prop),
+    (forall a b c, eqv a b -> eqv b c -> eqv a c) -> (forall s t, eqv (pre_fx s t) s) -> (forall s t r, eqv (post_fx s t r) s) ->
+    (forall a b t, eqv a b -> match apply a t, apply b t with
+                              | Some (a', x), Some (b', y) => x = y /\ eqv a' b'
+                              | None, None => True
+                              | _, _ => False
+                              end) ->
+    forall pre t post s st r, eqv s st ->
+      nth_error (snd (block_run apply admitted pre_fx post_fx core_fx s (pre ++ t :: post))) (length pre) = Some (BkExec r) ->
+      trace_tx apply st pre t = Some r.
+
+(* witness: one sender (state = its nonce); transaction = (nonce, gas limit below the intrinsic gas?) *)
+Definition toy_apply (s : N) (t : N * bool) : option (N * bool) :=
+  if s =? fst t then (if snd t then None else Some (s + 1, false)) else None.
+Definition toy_admitted (s : N) (t : N * bool) : bool := s =? fst t.
+
+Lemma toy_apply_eq : forall (a b : N) (t : N * bool), a = b ->
+  match toy_apply a t, toy_apply b t with
+  | Some (a', x), Some (b', y) => x = y /\ a' = b'
+  | None, None => True
+  | _, _ => False
+  end.
+Proof. intros a b t E. subst b. destruct (toy_apply a t) as [[? ?]|]; [split; reflexivity|exact I]. Qed.
+
+Lemma trace_predicts_block_refuted : ~ trace_predicts_block_full.
+Proof.
+  intros H.
+  specialize (H N (N * bool)%type bool toy_apply toy_admitted (fun s _ => s) (fun s _ _ => s) (fun s _ => s + 1) eq).
+  specialize (H (fun a b c E1 E2 => eq_trans E1 E2) (fun s t => eq_refl) (fun s t r => eq_refl) toy_apply_eq).
+  specialize (H [(0, true)] (1, false) [] 0 0 false eq_refl).
+  vm_compute in H. specialize (H eq_refl). discriminate H.
+Qed.
+
+(* the variant of TraceTx that also leaves out predecessors whose EVM execution failed does not even predict
+   blocks in which every transaction was executed *)
+Definition trace_dropping_failed_predicts_block : Prop :=
+  forall (St T R : Type) (apply : St -> T -> option (St * R)) (vm_failed : R -> bool) (admitted : St -> T -> bool)
+         (pre_fx : St -> T -> St) (post_fx : St -> T -> R -> St) (core_fx : St -> T -> St) (eqv : St -> St -> Prop),
+    (forall a b c, eqv a b -> eqv b c -> eqv a c) -> (forall s t, eqv (pre_fx s t) s) -> (forall s t r, eqv (post_fx s t r) s) ->
+    (forall a b t, eqv a b -> match apply a t, apply b t with
+                              | Some (a', x), Some (b', y) => x = y /\ eqv a' b'
+                              | None, None => True
+                              | _, _ => False
+                              end) ->
+    forall pre t post s st r, eqv s st -> preds_ok apply admitted pre_fx post_fx core_fx eqv s pre ->
+      nth_error (snd (block_run apply admitted pre_fx post_fx core_fx s (pre ++ t :: post))) (length pre) = Some (BkExec r) ->
+      trace_tx_dropping_failed apply vm_failed st pre t = Some r.
+
+(* transaction = (nonce, the call reverts?) ; result = reverted? *)
+Definition toy2_apply (s : N) (t : N * bool) : option (N * bool) :=
+  if s =? fst t then Some (s + 1, snd t) else None.
+
+Lemma toy2_apply_eq : forall (a b : N) (t : N * bool), a = b ->
+  match toy2_apply a t, toy2_apply b t with
+  | Some (a', x), Some (b', y) => x = y /\ a' = b'
+  | None, None => True
+  | _, _ => False
+  end.
+Proof. intros a b t E. subst b. destruct (toy2_apply a t) as [[? ?]|]; [split; reflexivity|exact I]. Qed.
+
+Lemma trace_dropping_failed_refuted : ~ trace_dropping_failed_predicts_block.
+Proof.
+  intros H.
+  specialize (H N (N * bool)%type bool toy2_apply (fun x => x) toy_admitted (fun s _ => s) (fun s _ _ => s) (fun s _ => s + 1) eq).
+  specialize (H (fun a b c E1 E2 => eq_trans E1 E2) (fun s t => eq_refl) (fun s t r => eq_refl) toy2_apply_eq).
+  specialize (H [(0, true)] (1, false) [] 0 0 false eq_refl).
+  assert (Hp : preds_ok toy2_apply toy_admitted (fun s _ => s) (fun s _ _ => s) (fun s _ => s + 1) eq 0 [(0, true)]).
+  { vm_compute. split; exact I. }
+  specialize (H Hp). vm_compute in H. specialize (H eq_refl). discriminate H.
+Qed.
+
+(* the nonce skeleton used by the correspondence check is an instance of the hypotheses *)
+Lemma skel_apply_eq : forall (a b : nmap) (t : btx), a = b ->
+  match skel_apply a t, skel_apply b t with
+  | Some (a', x), Some (b', y) => x = y /\ a' = b'
+  | None, None => True
+  | _, _ => False
+  end.
+Proof. intros a b t E. subst b. destruct (skel_apply a t) as [[? ?]|]; [split; reflexivity|exact I]. Qed.
+
+Lemma skel_trace_predicts_block : forall pre t post m r,
+  preds_ok skel_apply skel_admitted (fun m _ => m) (fun m _ _ => m) (fun m t => nm_bump m (b_sender t)) eq m pre ->
+  nth_error (snd (skel_block_run m (pre ++ t :: post))) (length pre) = Some (BkExec r) ->
+  trace_tx skel_apply m pre t = Some r.
+Proof.
+  intros pre t post m r Hp Hn.
+  exact (trace_predicts_block skel_apply skel_admitted (fun m _ => m) (fun m _ _ => m) (fun m t => nm_bump m (b_sender t)) eq
+           (fun a b c E1 E2 => eq_trans E1 E2) (fun s t => eq_refl) (fun s t r => eq_refl) skel_apply_eq
+           pre t post m m r eq_refl Hp Hn).
+Qed.
